@@ -43,10 +43,19 @@
  *        adding a pointer to the resource it guards and a list of any observer
  *        resource guards that get signals forwarded from this one.
  */
+struct cmb_resourceguard;
+
+/**
+ * @brief Function prototype for what a resource guard does when a signal is
+ *        forwarded to it as an observer of some other guard.
+ */
+typedef bool (cmb_resourceguard_signal_func)(struct cmb_resourceguard *rgp);
+
 struct cmb_resourceguard {
     struct cmi_hashheap priority_queue;         /**< The base hashheap class */
     struct cmi_resourcebase *guarded_resource;  /**< The resource it guards */
     struct cmi_slist_head observers;            /**< Any other resource guards observing this one */
+    cmb_resourceguard_signal_func *on_forwarded_signal; /**< How to react to a forwarded signal, `NULL` for `cmb_resourceguard_signal` */
 };
 
 /**
